@@ -1,6 +1,6 @@
 /-
 Executable model of the dense linear algebra kernels (src/vnacommon_lu.c, _mldivide.c, _mrdivide.c,
-_minverse.c) — core-only, generic over the scalar operations and a magnitude function used only
+_minverse.c, _qrd.c, _qrsolve.c) — core-only, generic over the scalar operations and a magnitude function used only
 for pivot selection.  Matrices are flat row-major arrays, as in the C.
 -/
 import Libvna.Model.Scalar
@@ -152,4 +152,123 @@ def mrdivide (mag : K → Float) (b : Array K) (a0 : Array K) (m n : Nat) : Arra
   let r := lu mag a0 n
   (mrRows r.1 b r.2.1 n m (Array.replicate (m * n) (0 : K)), r.2.2)
 
+/-! ### Householder QR: `_vnacommon_qrd`, `_vnacommon_qrsolve` (src/vnacommon_qrd.c, vnacommon_qrsolve.c) -/
+
+/-- the scalar operations of the Householder kernels that are not field operations -/
+structure QROps (K : Type) where
+  conj : K → K
+  /-- `_vnacommon_cabs2`, as a scalar -/
+  abs2 : K → K
+  /-- `-cexp(I * carg(a)) * sqrt(s)` from the diagonal entry `a` and the squared column norm `s` -/
+  alpha : K → K → K
+  /-- `sqrt` of a real scalar -/
+  rsqrt : K → K
+
+/-- `subdot`: Σ over rows d+1 .. d+cnt of |A(row, d)|² -/
+def sumAbs2 (ops : QROps K) (a : Array K) (n d : Nat) : Nat → K
+  | 0 => 0
+  | k + 1 => sumAbs2 ops a n d k + ops.abs2 (get a n (d + 1 + k) d)
+
+/-- rows d .. d+cnt-1 of column d divided by `nrm` -/
+def divCol (n d : Nat) (nrm : K) : Nat → Array K → Array K
+  | 0, a => a
+  | k + 1, a =>
+    let a' := divCol n d nrm k a
+    set a' n (d + k) d (get a' n (d + k) d / nrm)
+
+/-- `temp`: Σ over rows d .. d+cnt-1 of conj A(row, d) * A(row, col) -/
+def colDot (ops : QROps K) (a : Array K) (n d col : Nat) : Nat → K
+  | 0 => 0
+  | k + 1 => colDot ops a n d col k + ops.conj (get a n (d + k) d) * get a n (d + k) col
+
+/-- rows d .. d+cnt-1: `A(row, col) -= 2 temp A(row, d)` -/
+def colUpd (n d col : Nat) (t : K) : Nat → Array K → Array K
+  | 0, a => a
+  | k + 1, a =>
+    let a' := colUpd n d col t k a
+    set a' n (d + k) col (get a' n (d + k) col - (1 + 1) * t * get a' n (d + k) d)
+
+/-- columns d+1 .. d+cnt reflected -/
+def reflectCols (ops : QROps K) (m n d : Nat) : Nat → Array K → Array K
+  | 0, a => a
+  | c + 1, a =>
+    let a' := reflectCols ops m n d c a
+    colUpd n d (d + 1 + c) (colDot ops a' n d (d + 1 + c) (m - d)) (m - d) a'
+
+structure QRState (K : Type) where
+  a : Array K
+  dv : Array K
+
+/-- one pass of the `diagonal` loop of `_vnacommon_qrd` -/
+def qrdStep (ops : QROps K) (m n : Nat) (st : QRState K) (d : Nat) : QRState K :=
+  let add := get st.a n d d
+  let subdot := sumAbs2 ops st.a n d (m - d - 1)
+  let alpha := ops.alpha add (ops.abs2 add + subdot)
+  let a1 := set st.a n d d (add - alpha)
+  let nrm := ops.rsqrt (ops.abs2 (add - alpha) + subdot)
+  let a2 := divCol n d nrm (m - d) a1
+  { a := reflectCols ops m n d (n - d - 1) a2, dv := st.dv.set! d alpha }
+
+def qrdLoop (ops : QROps K) (m n : Nat) : Nat → QRState K → QRState K
+  | 0, st => st
+  | k + 1, st => qrdStep ops m n (qrdLoop ops m n k st) k
+
+/-- `_vnacommon_qrd`: A m×n in place (reflector vectors on and below the diagonal, R above), the diagonal of R in `dv` -/
+def qrd (ops : QROps K) (a : Array K) (m n : Nat) : QRState K :=
+  qrdLoop ops m n (min m n) { a := a, dv := Array.replicate (min m n) 0 }
+
+/-- `s`: Σ over rows i .. i+cnt-1 of conj A(j, i) * B(j, k) -/
+def bDot (ops : QROps K) (a b : Array K) (n o i k : Nat) : Nat → K
+  | 0 => 0
+  | t + 1 => bDot ops a b n o i k t + ops.conj (get a n (i + t) i) * get b o (i + t) k
+
+/-- rows i .. i+cnt-1: `B(j, k) -= 2 s A(j, i)` -/
+def bUpd (a : Array K) (n o i k : Nat) (s : K) : Nat → Array K → Array K
+  | 0, b => b
+  | t + 1, b =>
+    let b' := bUpd a n o i k s t b
+    set b' o (i + t) k (get b' o (i + t) k - (1 + 1) * s * get a n (i + t) i)
+
+/-- reflectors 0 .. cnt-1 applied to column k of B -/
+def applyQ (ops : QROps K) (a : Array K) (m n o k : Nat) : Nat → Array K → Array K
+  | 0, b => b
+  | i + 1, b =>
+    let b' := applyQ ops a m n o k i b
+    bUpd a n o i k (bDot ops a b' n o i k (m - i)) (m - i) b'
+
+/-- back substitution, rows diag-1 down to diag-cnt: `X(i,k) = (B(i,k) - Σ_{j=i+1}^{diag-1} A(i,j) X(j,k)) / d[i]` -/
+def qrBack (a dv b : Array K) (n o k diag : Nat) : Nat → Array K → Array K
+  | 0, x => x
+  | c + 1, x =>
+    let x' := qrBack a dv b n o k diag c x
+    let i := diag - 1 - c
+    set x' o i k (accSub (get b o i k) (fun t => get a n i (i + 1 + t) * get x' o (i + 1 + t) k) (diag - (i + 1)) / dv[i]!)
+
+/-- columns 0 .. cnt-1 of the solution; returns (B, X) -/
+def qrCols (ops : QROps K) (a dv : Array K) (m n o : Nat) : Nat → Array K × Array K → Array K × Array K
+  | 0, bx => bx
+  | k + 1, bx =>
+    let p := qrCols ops a dv m n o k bx
+    let b' := applyQ ops a m n o k (min m n) p.1
+    (b', qrBack a dv b' n o k (min m n) (min m n) p.2)
+
+/-- `_vnacommon_qrsolve`: least-squares solution X (n×o) of A X = B, A m×n, B m×o; rows of X beyond min(m,n) are zero.
+    Returns (X, d): the rank test on `d` (isnormal) is the caller's. -/
+def qrsolve (ops : QROps K) (a0 b0 : Array K) (m n o : Nat) : Array K × Array K :=
+  let st := qrd ops a0 m n
+  ((qrCols ops st.a st.dv m n o o (b0, Array.replicate (n * o) 0)).2, st.dv)
+
 end Libvna.LA
+
+namespace Libvna
+/-- the IEEE-double instance: what the C computes, operation by operation -/
+def cfQROps : LA.QROps CF where
+  conj := CF.conj
+  abs2 := fun z => ⟨z.re * z.re + z.im * z.im, 0⟩
+  alpha := fun a s =>
+    let th := Float.atan2 a.im a.re
+    let r := Float.sqrt s.re
+    ⟨-(Float.cos th) * r, -(Float.sin th) * r⟩
+  rsqrt := fun s => ⟨Float.sqrt s.re, 0⟩
+end Libvna
+
